@@ -6,6 +6,9 @@ from vf.core import Ctx
 
 
 def run(ctx: Ctx) -> None:
+    # the lifetime predicates the contracts rest on, at every boundary (spec/Ttl.tla, Oracle_Ttl.tla)
+    from props import ttloracle
+    ttloracle.run(ctx, 'C03')
     from props.respfam import d22_scenarios
     from props import routemodel
     routemodel.run(ctx, 'C03')
